@@ -220,6 +220,6 @@ def verdict_micro(desc):
 
 
 SUBS = [
-    Sub("laws", config(), verdict, quick=200, thorough=4000),
-    Sub("extreme_scale", config(micro=True), verdict_micro, quick=48, thorough=600),
+    Sub("laws", config(), verdict, quick=480, thorough=8000),
+    Sub("extreme_scale", config(micro=True), verdict_micro, quick=96, thorough=1200),
 ]
